@@ -61,12 +61,18 @@ def build_atom(torch, name, D, pos, ctxf, seed):
         return perturb(TR.AffineCouplingTransform([1, -1], lambda i, o: nets.ResidualNet(i, o, hidden_features=6, context_features=ctxf, num_blocks=1), unconditional_transform=ut), 0.3)
     if name == "autoregressive":
         return perturb(TR.MaskedAffineAutoregressiveTransform(D, 6, context_features=ctxf, num_blocks=1), 0.3)
+    # the floors on bin widths / heights are arguments too (different from each other on every second stage)
+    def mins(fam):
+        if fam == "Linear" or (pos + seed) % 2:
+            return {}
+        return {"min_bin_width": 0.02, "min_bin_height": 0.08}
+
     if name == "spline_tails":
-        cls = getattr(NL, "Piecewise%sCDF" % FAMS[(pos + seed) % 4])
-        return perturb(cls([D], num_bins=4, tails="linear", tail_bound=2.5), 0.6)
+        fam = FAMS[(pos + seed) % 4]
+        return perturb(getattr(NL, "Piecewise%sCDF" % fam)([D], num_bins=4, tails="linear", tail_bound=2.5, **mins(fam)), 0.6)
     if name == "spline_unit":
-        cls = getattr(NL, "Piecewise%sCDF" % FAMS[(pos + seed) % 4])
-        return perturb(cls([D], num_bins=4), 0.6)
+        fam = FAMS[(pos + seed) % 4]
+        return perturb(getattr(NL, "Piecewise%sCDF" % fam)([D], num_bins=4, **mins(fam)), 0.6)
     if name == "logtanh":
         return NL.LogTanh(cut_point=2.0 if (pos + seed) % 2 == 0 else 0.7)
     if name == "leakyrelu":
@@ -244,7 +250,7 @@ def flow_task(t):
         if case["ctx"] and case["base"] == "ConditionalDiagonalNormal" and D == 1:
             ctxs = torch.tensor([[0.5, -1.0], [-0.3, -7.5]], dtype=torch.float64)   # second row: std 5.5e-4
         histories = ["plain"] + (["cache_after_sample"] if "linear" in names and onto else [])
-        if onto and ({"affine", "actnorm", "linear"} & set(names)):
+        if onto and ({"affine", "actnorm", "linear", "autoregressive", "coupling", "batchnorm"} & set(names)):
             histories.append("after_load")
         for hist in histories:
             for mod in flow.modules():
@@ -255,7 +261,15 @@ def flow_task(t):
                 # a flow built with other parameter / buffer values receives this flow's state dict
                 try:
                     other = build_flow(torch, st, D, seed + 4)   # same atom classes, other values
-                    other.load_state_dict(flow.state_dict())
+                    with torch.no_grad():                        # ... and it has been used before the load
+                        xq = torch.zeros(2, D, dtype=torch.float64) + 0.3
+                        try:
+                            other.log_prob(xq, ctxs if case["ctx"] else None)
+                        except Exception:  # noqa
+                            pass
+                    # the checkpoint comes from a model that was never evaluated (its parameter tensors are
+                    # exactly what the constructor and the optimiser left in them)
+                    other.load_state_dict(build_flow(torch, st, D, seed).state_dict())
                     flow_used = other
                 except Exception as e:  # noqa
                     out["fails"].append(dict(case, hist=hist, clause="raises", detail="flow %s | %s: loading the state dict into a flow built under another seed raised %r" % (names, case["base"], e)))
